@@ -69,12 +69,118 @@ pub fn plan(tier: &str, seed: u64) -> Vec<Batch> {
             v.push(Batch { check: "C15".into(), phase: "matrix".into(), uni: uni.clone(), seed, lo: s * n / shards, hi: (s + 1) * n / shards, fresh: false, tier: tier.into(), extra: json!({"sysctl": sysctl}) });
         }
     }
+    // history: a transient fault at any system call of the *first* lookup of a
+    // process (where the library reads and caches the sysctl) must not change
+    // what later lookups are allowed to follow
+    let mut u1 = UniCfg::e();
+    u1.psym = Some(1);
+    let total = 2 * FU_MAX_STEP * FU_ERRNOS.len() as u64;
+    let stride = if tier == "thorough" { 1 } else { 2 };
+    let chunk = 64 * stride;
+    let mut lo = 0;
+    while lo < total {
+        v.push(Batch { check: "C15".into(), phase: "first-use-fault".into(), uni: u1.clone(), seed, lo, hi: (lo + chunk).min(total), fresh: true, tier: tier.into(), extra: json!({"stride": stride}) });
+        lo += chunk;
+    }
     // the kernel backend never consults the emulation: its cells must all be allowed
     // when the machine's own sysctl is 0 and must follow the rule when it is 1
     let mut uk = UniCfg::k();
     uk.psym = None;
     v.push(Batch { check: "C15".into(), phase: "kernel".into(), uni: uk, seed, lo: 0, hi: n, fresh: false, tier: tier.into(), extra: Value::Null });
     v
+}
+
+pub const FU_MAX_STEP: u64 = 260;
+pub const FU_ERRNOS: [i32; 4] = [libc::EMFILE, libc::ENOMEM, libc::EIO, libc::EACCES];
+
+/// (variant, fault step, errno) of a first-use-fault run
+pub fn fu_decode(idx: u64) -> (usize, usize, i32) {
+    let e = FU_ERRNOS[(idx % FU_ERRNOS.len() as u64) as usize];
+    let r = idx / FU_ERRNOS.len() as u64;
+    ((r / FU_MAX_STEP) as usize, (r % FU_MAX_STEP) as usize, e)
+}
+
+pub fn fu_cell(variant: usize) -> Cell {
+    // sticky world-writable directory of root; variant 0: somebody else's link (refused), 1: the caller's own (allowed)
+    Cell { dir_mode: 0o1777, dir_uid: 0, link_uid: if variant == 0 { 1001 } else { 1000 }, caller: 1000, trailing: false, facade_c: false }
+}
+
+pub fn fu_case(uni: &UniCfg, idx: u64) -> Case {
+    let (variant, step, errno) = fu_decode(idx);
+    let c = fu_cell(variant);
+    let mut case = Case::new("C15", "first-use-fault", uni.clone());
+    case.fresh = true;
+    case.world = Some(world_for(&c));
+    case.jobs = vec![vec![
+        OpSpec::new(Op::SetEuid { uid: c.caller }),
+        OpSpec::new(Op::Resolve { path: "d/l/file".into(), nofollow: false }),
+        OpSpec::new(Op::Resolve { path: "d/l/file".into(), nofollow: false }),
+        // (Rust facade only: when the fault leaves the process without any /proc handle the library
+        // panics - C10's known finding - and through the C API that would abort the universe)
+        OpSpec::new(Op::Resolve { path: "d/l".into(), nofollow: false }),
+        OpSpec::new(Op::SetEuid { uid: 0 }),
+    ]];
+    case.plan.script = vec![crate::sup::Dec { step, fault: Some(crate::sup::Fault::Errno(errno)), ..Default::default() }];
+    case.extra = json!({"dir_mode": "1777", "dir_uid": c.dir_uid, "link_uid": c.link_uid, "caller": c.caller, "position": "intermediate", "variant": variant, "fault_step": step, "errno": sys::errname(errno)});
+    case
+}
+
+fn run_first_use(u: &mut Universe, b: &Batch, idx: u64, st: &mut Stats) {
+    let case = if b.phase == "replay" {
+        match Case::from_json(&b.extra["case"]) {
+            Some(c) => c,
+            None => return,
+        }
+    } else {
+        let stride = b.extra["stride"].as_u64().unwrap_or(1);
+        if idx % stride != (b.seed % stride) {
+            return;
+        }
+        fu_case(&b.uni, idx)
+    };
+    let variant = case.extra["variant"].as_u64().unwrap_or(0) as usize;
+    let allowed = kernel_rule(1, &fu_cell(variant));
+    let out = run_case(u, &case, &mut crate::sup::NoHooks, false);
+    if let Some(e) = &out.harness_error {
+        st.harness_errors.push(format!("first-use-fault {idx}: {e}"));
+        return;
+    }
+    st.merge_runout(&out);
+    let lookups: Vec<&crate::sup::OpRecord> = out.records.iter().filter(|r| matches!(r.spec.op, Op::Resolve { .. })).collect();
+    if lookups.len() < 3 {
+        return;
+    }
+    if lookups[0].faults_inside == 0 {
+        st.count("first_use.fault_did_not_land_in_first_lookup", 1);
+        return;
+    }
+    st.evaluations += 1;
+    st.nontrivial.insert(case.hash());
+    st.count("first_use.fault_landed_in_first_lookup", 1);
+    st.count(&format!("first_use.faulted_lookup.{}", lookups[0].outcome.class().split(':').take(3).collect::<Vec<_>>().join(":")), 1);
+    let mut found: Vec<(String, String)> = Vec::new();
+    for (k, r) in lookups.iter().enumerate() {
+        match &r.outcome {
+            Outcome::Fd(_) if !allowed => found.push((
+                "follows-where-kernel-refuses:after-first-use-fault".into(),
+                format!("lookup #{k} followed a link the kernel rule refuses (sysctl=1), after {} was injected at step {} of the process's first lookup: {}", case.extra["errno"], case.extra["fault_step"], case.extra),
+            )),
+            Outcome::Err { errno, kind, desc } if k > 0 && (allowed || *errno != libc::EACCES) => found.push((
+                if allowed { "refuses-where-kernel-allows:after-first-use-fault".into() } else { "unexpected-outcome:after-first-use-fault".into() },
+                format!("fault-free lookup #{k} after a faulted first lookup: {} ({kind}) {desc}; {}", sys::errname(*errno), case.extra),
+            )),
+            // a panic is C10's matter (and its known finding), not a statement about protected symlinks
+            Outcome::Panic(_) => st.count("first_use.lookup_panicked(C10)", 1),
+            _ => {}
+        }
+    }
+    let mut seen = std::collections::BTreeSet::new();
+    for (clause, detail) in found {
+        if seen.insert(clause.clone()) {
+            let v = mk_violation(&case, &out, "C15", &clause, "resolve", detail);
+            st.violation(&v);
+        }
+    }
 }
 
 pub fn world_for(c: &Cell) -> WorldSpec {
@@ -107,6 +213,12 @@ fn machine_sysctl() -> u32 {
 }
 
 pub fn run(u: &mut Universe, b: &Batch, st: &mut Stats) {
+    if b.phase == "first-use-fault" || (b.phase == "replay" && b.extra["case"]["phase"].as_str() == Some("first-use-fault")) {
+        for idx in b.lo..b.hi {
+            run_first_use(u, b, idx, st);
+        }
+        return;
+    }
     if let Err(e) = warm_up(u) {
         st.harness_errors.push(format!("warm-up: {e}"));
         return;
@@ -193,12 +305,12 @@ pub fn finalise(tier: &str, seed: u64, res: coord::CheckResult) -> i32 {
         tier,
         seed,
         "fault_enumeration",
-        "a finite matrix enumerated completely: directory mode {plain, sticky, world-writable, sticky+world-writable} x directory owner x link owner x caller uid (each from {0,1000,1001}; the caller thread switches its effective uid with a raw per-thread setresuid) x link position {trailing, intermediate} x facade x sysctl value {0,1} substituted at the seam in an E universe (one universe per value, since the library caches it per process); oracle: a transcription of may_follow_link() from fs/namei.c; the K universe runs the same cells against the machine's real sysctl; distinct = every cell is a distinct configuration",
+        "a finite matrix enumerated completely: directory mode {plain, sticky, world-writable, sticky+world-writable} x directory owner x link owner x caller uid (each from {0,1000,1001}; the caller thread switches its effective uid with a raw per-thread setresuid) x link position {trailing, intermediate} x facade x sysctl value {0,1} substituted at the seam in an E universe (one universe per value, since the library caches it per process); oracle: a transcription of may_follow_link() from fs/namei.c; the K universe runs the same cells against the machine's real sysctl; first-use-fault: in a fresh process (sysctl=1) one errno from {EMFILE, ENOMEM, EIO, EACCES} is injected at every system call of the *first* lookup - the one during which the library reads and caches the sysctl - for a refused and an allowed cell, and two fault-free lookups follow: a refused link is never followed and the fault-free lookups obey the rule exactly (quick: every second placement; thorough: all); distinct = every cell is a distinct configuration",
         res,
         extra,
         vec!["the oracle is a five-line transcription of the kernel rule; the real kernel enforces it only when this machine's fs.protected_symlinks is 1 (recorded under machine_sysctl)".into()],
         true,
-        &|b, run| Some(case_for(&b.uni, run as usize)),
+        &|b, run| if b.phase == "first-use-fault" { Some(fu_case(&b.uni, run)) } else { Some(case_for(&b.uni, run as usize)) },
     )
     .exit_code
 }
